@@ -297,11 +297,13 @@ Definition cmd_resolved (wf special : gmap) (cd cv : rmap) : option (gmap * gmap
     | Some v => Some (d, v)
     end
   end.
+(* the final stack: the workflow stack (without the class defaults) over the class vars wrapped
+   over the class defaults.  Before fix C14-a the stack s1, which already held the class
+   defaults, was wrapped over the class vars, so a class default outranked a class var. *)
 Definition cmd_stack (wf special : gmap) (cd cv : rmap) : option gmap :=
   match cmd_resolved wf special cd cv with
   | None => None
-  | Some (d, v) =>
-    Some (wrapped_and_flattened (wrapped_and_flattened (merge wf special) [d]) [v])
+  | Some (d, v) => Some (wrapped_and_flattened (merge wf special) [v; d])
   end.
 
 (* BuildPropertyMap: class vars wrapped over class defaults (raw, not templated), the workflow
@@ -381,7 +383,7 @@ Definition corr14 (c : c14_case) : bool :=
      4  Get(key) disagrees with the Flattened() map of the same hierarchy
      5  a template stage saw a value it must not see, or missed one it must see
      6  task command line: a class default outranked a class var for a key the workflow does
-        not define (recorded finding C14-a)
+        not define (the behaviour before fix C14-a; a regression of that repair)
      7  task command line: any other deviation from special > workflow > class vars > class defaults
      8  task property map: deviation from special > workflow > class vars > class defaults
      9  the variable of an iterator is not a var of the role generated for one of its values
